@@ -120,9 +120,13 @@ impl<D: DependencyProvider> SolverCache<D> {
                         // Found an in-flight request, wait for that request to finish and return
                         // the computed result.
                         in_flight.listen().await;
-                        self.package_name_to_candidates
-                            .get_copy(&package_name)
-                            .expect("after waiting for a request the result should be available")
+                        match self.package_name_to_candidates.get_copy(&package_name) {
+                            Some(id) => id,
+                            // The request we waited for was abandoned (its future was dropped
+                            // before the provider answered, e.g. by a `sort_candidates` that
+                            // gives up after a cancellation): nothing was stored, start over.
+                            None => return Box::pin(self.get_or_cache_candidates(package_name)).await,
+                        }
                     }
                     None => {
                         // Prepare an in-flight notifier for other requests coming in.
